@@ -320,6 +320,7 @@ func (s *Server) publishIfLatest(ctx context.Context, docURI protocol.DocumentUR
 }
 
 func (s *Server) publishDiagnostics(ctx context.Context, docURI protocol.DocumentURI, content string) {
+	verifhook.At("diag.enter", string(docURI))
 	s.publishDiagnosticsVersion(ctx, docURI, content, s.currentDiagnosticsVersion(docURI))
 }
 
